@@ -10,3 +10,24 @@ Inductive Bad (h : HashOps) : Prop :=
 | BadMac (k m k' m' : bytes) :
     length k = length k' -> (k, m) <> (k', m') -> h_hmac h k m = h_hmac h k' m' -> Bad h
 | BadHash (x y : bytes) : x <> y -> h_hash h x = h_hash h y -> Bad h.
+
+(* Suite-level bad events: besides HMAC / hash collisions, a collision of HKDF-Expand on a (possibly
+   truncated) output, of the key derivation from a seed, or two different valid private keys with the
+   same Diffie-Hellman output against one public key.  Every constructor carries its witness. *)
+From OKE Require Import Hkdf.
+Section BadS.
+  Context {E Sc Pk Sk : Type}.
+  Variable CS : Suite E Sc Pk Sk.
+
+  Inductive BadS : Prop :=
+  | BS_hash : Bad (hash CS) -> BadS
+  | BS_expand (prk info prk' info' out : bytes) (len : nat) :
+      (prk, info) <> (prk', info') ->
+      hkdf_expand (hash CS) prk info len = Some out -> hkdf_expand (hash CS) prk' info' len = Some out -> BadS
+  | BS_derive (seed seed' : bytes) (s : Sk) :
+      seed <> seed' ->
+      k_derive (ke CS) (hash CS) (o_id (oprf CS)) seed = Some s ->
+      k_derive (ke CS) (hash CS) (o_id (oprf CS)) seed' = Some s -> BadS
+  | BS_dh (P : Pk) (s s' : Sk) :
+      s <> s' -> k_dh (ke CS) P s = k_dh (ke CS) P s' -> BadS.
+End BadS.
